@@ -3,10 +3,19 @@
 // This source code is licensed under both the MIT license found in the
 // LICENSE-MIT file in the root directory of this source tree.
 
+#[cfg(not(feature = "verif_hooks"))]
 use std::sync::atomic::AtomicU8;
+#[cfg(feature = "verif_hooks")]
+use crate::verif::atomic::AtomicU8;
+#[cfg(not(feature = "verif_hooks"))]
 use std::sync::atomic::AtomicUsize;
+#[cfg(feature = "verif_hooks")]
+use crate::verif::atomic::AtomicUsize;
 use std::sync::atomic::Ordering;
+#[cfg(not(feature = "verif_hooks"))]
 use std::sync::Mutex;
+#[cfg(feature = "verif_hooks")]
+use crate::verif::sync::Mutex;
 
 use crate::actor::messages::StopMessage;
 use crate::actor::supervision::SupervisionTree;
@@ -154,6 +163,8 @@ impl ActorProperties {
             .unwrap()
             .take()
             .map_or(Err(MessagingErr::ChannelClosed), |prt| {
+                #[cfg(feature = "verif_hooks")]
+                crate::verif::point(crate::verif::PointKind::Channel, "signal.send", 0);
                 prt.send(signal).map_err(|_| MessagingErr::ChannelClosed)
             })
     }
@@ -162,6 +173,8 @@ impl ActorProperties {
         &self,
         message: SupervisionEvent,
     ) -> Result<(), MessagingErr<SupervisionEvent>> {
+        #[cfg(feature = "verif_hooks")]
+        crate::verif::point(crate::verif::PointKind::Channel, "sup.send", 0);
         self.supervision.send(message).map_err(|e| e.into())
     }
 
@@ -207,6 +220,8 @@ impl ActorProperties {
         let boxed = message
             .box_message(&self.id)
             .map_err(|_e| MessagingErr::InvalidActorType)?;
+        #[cfg(feature = "verif_hooks")]
+        crate::verif::point(crate::verif::PointKind::Channel, "msg.send", 0);
         self.message
             .send(MuxedMessage::Message(boxed))
             .map_err(|e| match e.0 {
@@ -257,6 +272,8 @@ impl ActorProperties {
                 Ordering::Acquire,
             ) {
                 Ok(_) => {
+                    #[cfg(feature = "verif_hooks")]
+                    crate::verif::point(crate::verif::PointKind::Channel, "drain.send", 0);
                     return self
                         .message
                         .send(MuxedMessage::Drain)
@@ -306,6 +323,8 @@ impl ActorProperties {
             #[cfg(feature = "message_span_propogation")]
             span: None,
         };
+        #[cfg(feature = "verif_hooks")]
+        crate::verif::point(crate::verif::PointKind::Channel, "msg.send_serialized", 0);
         Ok(self
             .message
             .send(MuxedMessage::Message(boxed))
@@ -325,6 +344,8 @@ impl ActorProperties {
             .unwrap()
             .take()
             .map_or(Err(MessagingErr::ChannelClosed), |prt| {
+                #[cfg(feature = "verif_hooks")]
+                crate::verif::point(crate::verif::PointKind::Channel, "stop.send", 0);
                 prt.send(msg).map_err(|_| MessagingErr::ChannelClosed)
             })
     }
@@ -341,6 +362,8 @@ impl ActorProperties {
 
     /// Wait for the actor to exit
     pub(crate) async fn wait(&self) {
+        #[cfg(feature = "verif_hooks")]
+        crate::verif::point(crate::verif::PointKind::Notify, "wait.notified", 0);
         let notified = self.wait_handler.notified();
         if self.get_status() != ActorStatus::Stopped {
             notified.await;
@@ -358,8 +381,18 @@ impl ActorProperties {
     }
 
     pub(crate) fn notify_stop_listener(&self) {
+        #[cfg(feature = "verif_hooks")]
+        crate::verif::point(crate::verif::PointKind::Notify, "wait.notify_waiters", 0);
         self.wait_handler.notify_waiters();
         // Preserve one permit for a waiter created after the actor stopped.
+        #[cfg(feature = "verif_hooks")]
+        crate::verif::point(crate::verif::PointKind::Notify, "wait.notify_one", 0);
         self.wait_handler.notify_one();
+    }
+
+    /// verif: raw admission word, read without a scheduling point
+    #[cfg(feature = "verif_hooks")]
+    pub(crate) fn message_admission_raw(&self) -> usize {
+        self.message_admission.raw_load()
     }
 }
